@@ -62,6 +62,14 @@ def stepOp (op : List String) : Option (List (List String) × Option (List Strin
       | _, true => IsNull.handIsNotNull c
     let s := if n then !IsNull.isNullSpec c else IsNull.isNullSpec c
     some ([["r", boolTok m]], some ["r", boolTok s], "isnull-" ++ cell)
+  | ["isnullf", _path, fn, xc, yc, neg] => do
+    -- IS [NOT] NULL over a function call: coalesce(x, y) is NULL iff neither is present; null_if(x, 'v') is NULL iff x is
+    -- NULL, missing or 'v' (cell p); q = 'w'
+    let xPresent := xc == "p" || xc == "q"
+    let y ← cellOf yc
+    let isNull := if fn == "coalesce" then (!xPresent && IsNull.isNullSpec y) else (xc != "q")
+    let s := if neg == "not" then !isNull else isNull
+    some ([["r", boolTok s]], some ["r", boolTok s], "isnull-function-operand")
   | _ => none
 
 def run (c : Case) : CaseOut := Id.run do
